@@ -363,7 +363,9 @@ func vc11RunCase(w *vc11World, rnd *vRand, L, D uint64, sup, fix bool, nops int,
 							dupInBlock = true
 						}
 					}
-					if (active(x.snd, x.lease, r) || dupInBlock) && !badHistory {
+					// never two holders of one lease in a block (the evaluator's cow excludes it; the order of
+					// the persisted Leases list follows Go map iteration, so reload would be nondeterministic)
+					if dupInBlock || (active(x.snd, x.lease, r) && !badHistory) {
 						x.lease = 0
 					}
 				}
@@ -373,6 +375,9 @@ func vc11RunCase(w *vc11World, rnd *vRand, L, D uint64, sup, fix bool, nops int,
 						inBlk := false                     // StateDelta.Txids is a map, the evaluator excludes it)
 						for _, z := range txs {
 							inBlk = inBlk || z.id == y.id
+						}
+						for _, z := range txs {
+							inBlk = inBlk || (y.lease != 0 && z.snd == y.snd && z.lease == y.lease)
 						}
 						if !inBlk {
 							x = y
